@@ -139,9 +139,9 @@ def run(rep):
     rep.notes.append('layout routines whose sites are not yet under SMT obligations (syntactic inventory + bounded only): '
                      + ', '.join(NOT_YET))
     common.load_contracts()
-    from contracts.filters import CASE_LAYOUT_CASES, MORE_LAYOUT_CASES
+    from contracts.filters import CASE_LAYOUT_CASES, MORE_LAYOUT_CASES, STRIPWS_SHAPE_CASES
     return generic.run_generic(
-        rep, [('sqlparse.formatter.validate_options', None)] + SITE_FUNCS + list(CASE_LAYOUT_CASES) + list(MORE_LAYOUT_CASES),
+        rep, [('sqlparse.formatter.validate_options', None)] + SITE_FUNCS + list(CASE_LAYOUT_CASES) + list(MORE_LAYOUT_CASES) + list(STRIPWS_SHAPE_CASES),
         structural=[site_inventory_residual, pure_helpers, stack_mapping],
         assumptions=['tree-level clause: per-site SMT obligations (every removal / value store / insertion reached on any path '
                      'of the listed routines concerns a whitespace token) over the heap model; loops are over-approximated '
@@ -153,6 +153,11 @@ def run(rep):
                      'items; 3 items in the thorough tier) are verified on explicit shapes of the node (arbitrary item classes '
                      'and texts, arbitrary filter settings): every insertion is a fresh whitespace token, no exception escapes '
                      '(for _process_case this includes: the closing keyword that the grouping guarantees is found again)',
+                     'the strip_whitespace routines are additionally verified on explicit shapes with functional postconditions '
+                     '(_stripws_identifierlist on  A ws ws , ws B , ws ws C : exactly the whitespace in front of the commas is '
+                     'removed, every other token is the same object in the same order, the remaining whitespace is one blank or '
+                     'empty; _stripws_parenthesis on ( ws ws X ws Y ws ws ); _stripws_default on ws A ws ws B ws): these cases '
+                     'do not refer to loop ordinals or local names, so they keep deciding after a rewrite of the routine',
                      'the routines listed in the notes are covered by a syntactic site inventory and the bounded stand-in only',
                      're-tokenising the output gives the same significant tokens / same number of statements: regex '
                      'semantics, bounded stand-in only'],
